@@ -1,5 +1,5 @@
 import Secp.Proofs.LimbGroup
-import Secp.Proofs.Equal
+import Secp.Proofs.CrossMul
 import Secp.Proofs.FieldConv
 import Secp.Proofs.Fermat
 import Secp.Proofs.BytesLemmas
